@@ -52,6 +52,7 @@ def run_one(ptype):
         t._send_kex_init = lambda: None
         t._expect_packet = lambda *a, **k: None
         t.initial_kex_done = True
+        t.clear_to_send.set()          # the state after the first key exchange: connection-layer messages may go out
         t.active = True
         th = threading.Thread(target=t.run, daemon=True)
         th.start()
